@@ -108,6 +108,7 @@ impl ConcCheck {
     }
     pub fn run(&self, ctx: &Ctx, pool: &Pool, salt: u64, programs: u32, budget: &Budget, out: &mut ShardOut) {
         let before = out.violations.len();
+        let t_start = std::time::Instant::now();
         let strat = prog_strategy(self.mix, self.max_threads, self.max_ops);
         drive_n(ctx, self.sub, ctx.shard_seed(salt), programs, 120, strat, out, |prog| {
             let ex = explore(pool, prog, budget, &self.opts, self.maker(), &self.judge);
@@ -125,6 +126,10 @@ impl ConcCheck {
                 }),
             }
         });
+        out.class(&format!("wall_ms_of_the_slowest_shard_in_{}", self.sub), 0);
+        let ms = t_start.elapsed().as_millis() as u64;
+        let key = format!("wall_ms_summed_over_shards_{}", self.sub);
+        out.class(&key, ms.max(1));
         // attach the (minimised) failing schedule to the replay file of a new violation
         for v in out.violations.iter_mut().skip(before) {
             if let Some(case) = v.replay.get("case").cloned() {
@@ -150,20 +155,26 @@ impl ConcCheck {
                 Err(e) => return Err(CaseFail { prop: self.asked.into(), msg: format!("bad replay file: {}", e) }),
             },
         };
-        match cc.schedule {
-            Some(sw) => {
-                let spec = SchedSpec { switches: sw, probe: self.maker(), ..Default::default() };
-                let out = exec(pool, &cc.prog, spec, &self.opts, None);
-                (self.judge)(&cc.prog, &out).map(|_| ()).map_err(|(p, m)| CaseFail { prop: p, msg: m })
-            }
-            None => {
-                let ex = explore(pool, &cc.prog, budget, &self.opts, self.maker(), &self.judge);
-                match ex.failure {
-                    Some((sched, prop, msg)) => Err(CaseFail { prop, msg: format!("{} [after preemptions {:?}]", msg, sched.switches) }),
-                    None => Ok(()),
+        // probed checks look at a window of steps that rotates from execution to execution: a
+        // replay tries every rotation so that it does not depend on where the shard's counter stood
+        let rotations: u64 = if self.mk_probe.is_some() { 4 } else { 1 };
+        for rot in 0..rotations {
+            PROBE_ROT.store(rot, std::sync::atomic::Ordering::SeqCst);
+            match &cc.schedule {
+                Some(sw) => {
+                    let spec = SchedSpec { switches: sw.clone(), probe: self.maker(), ..Default::default() };
+                    let out = exec(pool, &cc.prog, spec, &self.opts, None);
+                    (self.judge)(&cc.prog, &out).map(|_| ()).map_err(|(p, m)| CaseFail { prop: p, msg: m })?;
+                }
+                None => {
+                    let ex = explore(pool, &cc.prog, budget, &self.opts, self.maker(), &self.judge);
+                    if let Some((sched, prop, msg)) = ex.failure {
+                        return Err(CaseFail { prop, msg: format!("{} [after preemptions {:?}]", msg, sched.switches) });
+                    }
                 }
             }
         }
+        Ok(())
     }
 }
 
